@@ -189,6 +189,10 @@ class SymCtx:
         col = self.col
         if label in col.reproduced:
             return
+        if len(col.reproduced) >= 4:
+            # this obligation already has four reproduced violations: further failing assertions are counted, not replayed
+            col.not_replayed = getattr(col, "not_replayed", 0) + 1
+            return
         model = self.eng.model()
         tries = [self._scenario(model, label, detail)]
         if self.replayer is None:
